@@ -382,8 +382,8 @@ ADDENDA8 = {
     "C08": "; per-core scale windows and accelerator map (borrowed); largest-slice size of the single weight buffer",
     "C09": "; rounding mode of the lowered average pool",
     "C11": "; numpy view rows of the tensor type table; accessor names of operand vectors; sort key of hoisted CPU passes",
-    "C12": "; truth tests over consumer lists; CPU rows of the pass-packing automaton; variable tensors excluded from in-place reuse",
-    "C13": "; quantifier of the scale check; must-append on every path of the buffer loop; member order of debug-database pairs",
+    "C12": "; truth tests over consumer lists; CPU rows of the pass-packing automaton; variable tensors excluded from in-place reuse; intermediates of CPU cascaded passes",
+    "C13": "; quantifier of the scale check; must-append on every path of the buffer loop; member order of debug-database pairs; optional option members, quantisation records and operand slots read under a test",
     "C14": "; re-binding of module-level names in functions",
     "C15": "; block configuration of the applied schedule; interpretation of _ifm_blockdepth; one-sided swapped arguments",
     "C16": "; type coverage of the SOFTMAX lowering; element count in is_per_axis; semantic checker on every reader path",
